@@ -664,6 +664,60 @@ func ruleSeekRedirect(c *Ctx, r *Rep, tier string) {
 		}
 	}
 	r.Check(why == "", rule, "bgzf.(*Reader).Seek#cache-hit-redirect", c.Pos(swap.Pos()), "the cache-hit branch redirects the read-ahead worker", why)
+
+	// A redirect on the cache-hit branch is not enough by itself: that branch takes
+	// no decompressor out of the queue, so every result already queued is stale –
+	// up to cap(working) of them come before the block the reader then asks for,
+	// and nextBlock gives up after cap(working) results ("unexpected block").
+	r.Instance(rule, 1)
+	why = ""
+	takesDec := func(ins ssa.Instruction) bool {
+		switch x := ins.(type) {
+		case *ssa.UnOp:
+			if x.Op == token.ARROW {
+				f, _ := loadedField(x.X)
+				return f != nil && (f.Name() == "waiting" || f.Name() == "working")
+			}
+		case *ssa.Select:
+			for _, st := range x.States {
+				if f, _ := loadedField(st.Chan); f != nil && (f.Name() == "waiting" || f.Name() == "working") {
+					return true
+				}
+			}
+		}
+		return false
+	}
+	redirectsWithoutDec := false
+	for _, b := range fn.Blocks {
+		iff := ifOf(b)
+		if iff == nil || iff.Cond != ssa.Value(swap) {
+			continue
+		}
+		if _, reach := pathTo(Loc{b.Succs[0], -1}, isSend, func(x ssa.Instruction) bool { return takesDec(x) || x == final }, nil); reach {
+			redirectsWithoutDec = true
+		}
+	}
+	if redirectsWithoutDec {
+		nb := c.Func("bgzf", "(*Reader).nextBlock")
+		for _, b := range nb.Blocks {
+			iff := ifOf(b)
+			if iff == nil {
+				continue
+			}
+			bo, ok := iff.Cond.(*ssa.BinOp)
+			if !ok || bo.Op != token.LSS {
+				continue
+			}
+			if call, ok := bo.Y.(*ssa.Call); ok {
+				if cc, ok := isBuiltinCall(call, "cap"); ok {
+					if f, _ := loadedField(cc.Args[0]); f != nil && f.Name() == "working" {
+						why = "Seek redirects the worker on a cache hit without taking a decompressor out of the queue, and nextBlock still gives up after cap(working) results: all of them can be stale (read ahead of the old position), the wanted block is the one after, and the reader panics with \"unexpected block\""
+					}
+				}
+			}
+		}
+	}
+	r.Check(why == "", rule, "bgzf.(*Reader).Seek#cache-hit-redirect-drain", c.Pos(swap.Pos()), "no redirect that leaves cap(working) stale results in front of a scan bounded by cap(working)", why)
 }
 
 // rulePipeStall (PIPE-STALL): the read-ahead loop looks at the decompressor's
